@@ -52,6 +52,10 @@ def base_scenarios(tier, rng):
             for tail in ([], ["disconnect"]):
                 out.append({"id": "b%d" % i, "connack": "accept", "faults": [{"p": pk, "n": 1, "o": o}], "steps": ["sample", step, "wait"] + tail + ["sample"]})
                 i += 1
+    # the client itself detects a protocol violation (SUBACK with a wrong number of return codes) and ends the connection
+    for tail in ([], ["disconnect"], ["localclose"]):
+        out.append({"id": "b%d" % i, "connack": "accept", "steps": ["sample", "subbad", "wait"] + tail + ["sample"]})
+        i += 1
     # ... and healthy inbound traffic does not end it
     for step in ("in1", "in2"):
         out.append({"id": "b%d" % i, "connack": "accept", "steps": ["sample", step, "sleep", "sample", "disconnect", "wait", "sample"]})
@@ -200,7 +204,7 @@ def run(tier):
         "traces_validated_against_impl": nval, "model_states": r.states + rka.states,
         "scenarios": {"base": len(base), "held_callback": len(hold), "reconnecting_with_keepalive": len(rec)},
         "evaluations": len(results), "distinct_nontrivial": len(distinct),
-        "rule": "CONNACK behaviour x end causes (single, sequential pairs, racing pairs repeated) on one BaseClient; reconnecting client with keep-alive over cuts/peer closes; distinct = distinct observed callback/sample logs",
+        "rule": "CONNACK behaviour x end causes (single, sequential pairs, racing pairs repeated; also failing acknowledgement writes for inbound QoS 1/2 traffic) on one BaseClient; reconnecting client with keep-alive over cuts/peer closes; distinct = distinct observed callback/sample logs",
         "samples": samples or [{"note": "none"}], "exhaustive": False,
     }, time.time() - t0, ["A4: Transport.Close/Write return", "samples are taken by the driver while it injects no fault",
                            "the held-callback scenarios use the verif hook connStateCb as a scheduler gate"], violations=len(verd.violations))
